@@ -330,8 +330,21 @@ pub fn wide_two() -> Tree {
 
 /// games whose size crosses thresholds an implementation might special-case (64 / 1024 infosets of one player, counts
 /// that are not multiples of the thread count or of 32)
+/// a complete binary tree of `depth` levels of player-one decisions (2^depth - 1 infosets, ALL of them visited in every
+/// pass that updates player one, whatever is sampled), each leaf a reply of player two (one infoset)
+pub fn ptree(depth: usize) -> Tree {
+    fn rec(level: usize, depth: usize, path: u64) -> Tree {
+        if level == depth {
+            let v = (path as i64 * 5) % 13 - 6;
+            return player(2, "q", vec![("l", term(v)), ("r", term((v * 3) % 7))]);
+        }
+        player(1, &format!("n{level}_{path}"), vec![("a", rec(level + 1, depth, path * 2)), ("b", rec(level + 1, depth, path * 2 + 1))])
+    }
+    rec(0, depth, 0)
+}
+
 pub fn large() -> Vec<(String, Tree)> {
-    vec![("chain130".to_string(), chain(130)), ("cards67".to_string(), cards(67)), ("cards1025".to_string(), cards(1025)), ("wide300".to_string(), wide()), ("wide40two".to_string(), wide_two())]
+    vec![("ptree6".to_string(), ptree(6)), ("chain130".to_string(), chain(130)), ("cards67".to_string(), cards(67)), ("cards1025".to_string(), cards(1025)), ("wide300".to_string(), wide()), ("wide40two".to_string(), wide_two())]
 }
 
 /// a labelled chance infoset with three unequal outcomes met at two different nodes (the probabilities of one chance
